@@ -1222,8 +1222,6 @@ void IGXMLScanner::scanReset(const InputSource& src)
     // Reset validation
     fValidate = (fValScheme == Val_Always) ? true : false;
 
-    // Ignore skipDTDValidation flag if no schema processing is taking place */
-    fSkipDTDValidation = fSkipDTDValidation && fDoSchema;
 
     //  And for all installed handlers, send reset events. This gives them
     //  a chance to flush any cached data.
@@ -3322,7 +3320,7 @@ bool IGXMLScanner::switchGrammar(const XMLCh* const newGrammarNameSpace)
 {
     Grammar* tempGrammar = fGrammarResolver->getGrammar(newGrammarNameSpace);
 
-    if (!tempGrammar && !fSkipDTDValidation) {
+    if (!tempGrammar && !(fSkipDTDValidation && fDoSchema)) {
         // This is a case where namespaces is on with a DTD grammar.
         tempGrammar = fDTDGrammar;
     }
@@ -3340,7 +3338,7 @@ bool IGXMLScanner::switchGrammar(const XMLCh* const newGrammarNameSpace)
             }
         }
         else if (tempGrammarType == Grammar::DTDGrammarType) {
-            if (fSkipDTDValidation) {
+            if ((fSkipDTDValidation && fDoSchema)) {
                 return false;
             }
 
